@@ -80,6 +80,13 @@ func genCase(t *rapid.T) (Case, *env.Env) {
 			uniform = false
 		}
 	}
+	// livesim2 derives the chunk duration from the asset-wide (shortest average) VoD segment duration: layouts whose audio
+	// has a VoD grid of its own are refused with 400 for this ato (DESIGN §14.4 O7) and are not drawn for chunked cases
+	for _, r := range e.Asset.Reps {
+		if len(r.Segs) != len(e.Asset.Ref.Segs) {
+			uniform = false
+		}
+	}
 	if uniform && segMS >= 1000 && rapid.IntRange(0, 3).Draw(t, "chunked?") == 0 {
 		c.Chunked = true
 	}
